@@ -41,6 +41,7 @@ pub struct OpWeights {
     pub finish: u32,
     pub dropgen: u32,
     pub rebuild: u32,
+    pub inplace: u32,
 }
 
 impl Swarm {
@@ -436,7 +437,7 @@ pub fn swarm(prop: Prop, r: &mut Rng, pools: &Pools, corpus_len: usize) -> Swarm
             nops = r.range(15, 120);
         }
         Prop::C03 => {
-            profile = *r.pick(&["repeat", "setter_histories", "clone_heavy", "generators", "failed_ops_heavy", "mixed", "engine_churn"]);
+            profile = *r.pick(&["repeat", "setter_histories", "clone_heavy", "generators", "failed_ops_heavy", "mixed", "engine_churn", "identity"]);
             w.load = if profile == "engine_churn" { 14 } else { 4 };
             w.set = if profile == "setter_histories" { 25 } else { 8 };
             w.set_target = if profile == "setter_histories" { 30 } else { 12 };
@@ -450,9 +451,13 @@ pub fn swarm(prop: Prop, r: &mut Rng, pools: &Pools, corpus_len: usize) -> Swarm
             w.newgen = if profile == "generators" { 10 } else { 3 };
             w.step = if profile == "generators" { 60 } else { 20 };
             w.dropgen = 1;
-            w.rebuild = 2;
+            // identity: the same voices by content in other / shared allocations, voices overwritten in
+            // place between two uses (an address, an Arc or a pointer comparison is not an identity)
+            w.rebuild = if profile == "identity" { 14 } else { 2 };
+            w.inplace = if profile == "identity" { 10 } else { 1 };
             nops = r.range(10, 60);
-            max_voices = 2;
+            // three voices: the first count at which the order of a floating-point sum matters
+            max_voices = 3;
         }
     }
     // rare long-audio runs: thousands of frames / hundreds of thousands of samples, so that counters,
@@ -499,7 +504,7 @@ pub fn swarm(prop: Prop, r: &mut Rng, pools: &Pools, corpus_len: usize) -> Swarm
     // lazily built table is reused far from where it was built), then early keys are revisited.
     // Everything else in a batch is a short history in a young process.
     let mut marathon = false;
-    if matches!(prop, Prop::C02 | Prop::C03) && !heavy && prelude.is_empty() && r.chance(if prop == Prop::C03 { 0.004 } else { 0.0012 }) {
+    if matches!(prop, Prop::C02 | Prop::C03) && !heavy && prelude.is_empty() && metas[0].0.nstreams >= 3 && r.chance(if prop == Prop::C03 { 0.004 } else { 0.0012 }) {
         marathon = true;
         let n = *r.pick(&[150usize, 300, 700, 1500, 3000, 6000, 12000]);
         let mi = 0;
@@ -700,6 +705,7 @@ impl Gen {
             w.clone_from,
             w.reload,
             w.rebuild,
+            w.inplace,
         ];
         let k = self.r.weighted(&weights);
         let e = *self.r.pick(&occupied_e);
@@ -778,7 +784,7 @@ impl Gen {
                             8 => MetaField::UseGv(si),
                             _ => MetaField::Option(si),
                         };
-                        Some((pos, f, self.r.below(5) as u8))
+                        Some((pos, f, self.r.below(10) as u8))
                     } else {
                         None
                     };
@@ -796,7 +802,7 @@ impl Gen {
                             6 => MetaField::Option(si),
                             _ => MetaField::FramePeriod,
                         };
-                        Some((pos, f, self.r.below(5) as u8))
+                        Some((pos, f, self.r.below(10) as u8))
                     } else {
                         None
                     };
@@ -839,7 +845,22 @@ impl Gen {
                 Op::CloneFrom { src: e, dst }
             }
             16 => Op::Reload { e, voices: self.voices_for_load() },
-            17 => Op::Rebuild { e, how: self.r.below(3) as u8 },
+            17 => Op::Rebuild { e, how: if self.sw.profile == "identity" { *self.r.pick(&[3u8, 3, 3, 4, 0]) } else { self.r.below(5) as u8 } },
+            18 => {
+                // other voices of the same metadata (other bodies), as many as the engine has
+                let cur = sim.engines[e].as_ref().unwrap().voices.clone();
+                let voices: Vec<VoiceRef> = cur
+                    .iter()
+                    .map(|v| match v {
+                        VoiceRef::Gen(s) => {
+                            let mi = self.sw.metas.iter().position(|m| *m == s.meta).unwrap_or(0);
+                            VoiceRef::Gen(VoiceSpec { meta: self.sw.metas[mi].clone(), body: self.sw.bodies[mi * 4 + self.r.below(4)] })
+                        }
+                        VoiceRef::Perturbed(_) | VoiceRef::Bundled => VoiceRef::Perturbed(self.r.below(3) as u32),
+                    })
+                    .collect();
+                Op::ReplaceInPlace { e, voices }
+            }
             _ => Op::DropGen { g: *self.r.pick(&occupied_g) },
         };
         TOp { task, op }
